@@ -357,7 +357,18 @@ class Orchestrator:  # thailint: ignore[srp]
         for rule in rules:
             rule_violations = self._safe_check_rule(rule, context)
             violations.extend(rule_violations)
-        return violations
+        return self._drop_suppressed(violations, context)
+
+    def _drop_suppressed(
+        self, violations: list[Violation], context: BaseLintContext
+    ) -> list[Violation]:
+        """Apply inline ignore directives uniformly, also for rules that do not check them."""
+        if not violations:
+            return violations
+        content = context.file_content or ""
+        return [
+            v for v in violations if not self.ignore_parser.should_ignore_violation(v, content)
+        ]
 
     def _safe_check_rule(self, rule: BaseLintRule, context: BaseLintContext) -> list[Violation]:
         """Safely check a rule, returning empty list on error."""
